@@ -126,7 +126,7 @@ Definition ctor (c : cls) (a : argform) : result (list slot) :=
   | Bare it =>
       if accept c it then Ok [stored c it]
       else if is_twist c then Err TypeError else fallthrough c it
-  | Seq [] => Err IndexError                   (* arg[0] *)
+  | Seq [] => Ok []                            (* an empty list gives an empty object, as Empty() (fix 1105ad0; it was IndexError: arg[0]) *)
   | Seq l =>                                   (* isinstance(arg[0], ndarray):  data = [self._import(x) for x in arg] *)
       if is_twist c then
         if forallb (accept c) l then Ok (map (stored c) l) else Err TypeError       (* Twist._import raises *)
@@ -180,3 +180,77 @@ Definition summary (c : cls) (a : argform) : nat * list nat * bool :=
   match ctor c a with
   | Err e => (exc_code e, [], true)
   | Ok d => (0, map slot_code d, forallb valid_slot d) end.
+
+
+(* =====================================================================================================
+   Objects as arguments: the list mutators of SMUserList (smuserlist.py:305 __setitem__, 345 append, 374 extend,
+   400 insert) and the constructor given an object (arghandler: isinstance(arg, self.__class__) -> copy of arg.data;
+   arg.__class__ in convertfrom -> [converter(arg).A]; then the per-class fall-through).
+   An operand is an object of class ocl holding olen valid values of ITS class (or a bare ndarray / list: oArr).
+   An element of a receiver is tagged with the class whose group it belongs to; anything else is Junk (the empty list
+   that `.A` of an empty object returns, a row of a matrix spread by a slice assignment, a list of arrays).
+   ===================================================================================================== *)
+Inductive ocls := oSO2 | oSE2 | oSO3 | oSE3 | oQ | oUQ | oTw2 | oTw3 | oArr.
+Definition ocls_eqb (a b : ocls) : bool :=
+  match a, b with
+  | oSO2, oSO2 | oSE2, oSE2 | oSO3, oSO3 | oSE3, oSE3 | oQ, oQ | oUQ, oUQ | oTw2, oTw2 | oTw3, oTw3 | oArr, oArr => true
+  | _, _ => false end.
+(* type(self) == type(x) *)
+Definition exact (r o : ocls) : bool := ocls_eqb r o && negb (ocls_eqb o oArr).
+(* isinstance(x, type(self)): SE3 is a subclass of SO3, SE2 of SO2, UnitQuaternion of Quaternion *)
+Definition subclass_of (o r : ocls) : bool :=
+  exact r o || match o, r with oSE3, oSO3 | oSE2, oSO2 | oUQ, oQ => true | _, _ => false end.
+Inductive melt := V (c : ocls) | Junk.
+(* is the element a member of the receiver's group?  (a unit quaternion is a quaternion; an SE(3) matrix is NOT a member of SO(3)) *)
+Definition member (r : ocls) (e : melt) : bool :=
+  match e with V c => exact r c || (ocls_eqb r oQ && ocls_eqb c oUQ) | Junk => false end.
+Record operand := Opd { ocl : ocls; olen : nat }.
+(* x.A / x._A: the single value, or the LIST of values when len(x) <> 1 *)
+Definition opd_A (x : operand) : melt := if olen x =? 1 then V (ocl x) else Junk.
+(* number of rows a single value of the class spreads into when a list slice is assigned an ndarray *)
+Definition nrows (c : ocls) : nat :=
+  match c with oSO2 => 2 | oSE2 | oSO3 | oTw2 => 3 | oSE3 | oQ | oUQ => 4 | oTw3 => 6 | oArr => 0 end.
+Inductive mutator :=
+| SetInt (pos : nat)          (* x[i] = v, i normalised to a position; pos >= len: IndexError *)
+| SetSlice (lo hi : nat)      (* x[lo:hi] = v *)
+| Append
+| Insert (pos : nat)          (* position already clamped to 0..len *)
+| Extend.
+Fixpoint replace_nth {A} (l : list A) (n : nat) (x : A) : list A :=
+  match l, n with [] , _ => [] | _ :: t, 0 => x :: t | h :: t, S k => h :: replace_nth t k x end.
+
+(* the mutators, parametrised by the type guard g r (class of the operand) *)
+Definition mutate (g : ocls -> ocls -> bool) (r : ocls) (d : list melt) (m : mutator) (x : operand) : result (list melt) :=
+  if negb (g r (ocl x)) then Err ValueError                       (* can't insert / append different type of object *)
+  else match m with
+  | Extend => Ok (d ++ repeat (V (ocl x)) (olen x))                (* super().extend(iterable.data) *)
+  | _ =>
+    if 1 <? olen x then Err ValueError                             (* multivalued *)
+    else match m with
+    | SetInt pos => if pos <? length d then Ok (replace_nth d pos (opd_A x)) else Err IndexError
+    | SetSlice lo hi =>                                            (* list slice assignment iterates value.A *)
+        Ok (firstn lo d ++ (if olen x =? 1 then repeat Junk (nrows (ocl x)) else []) ++ skipn hi d)
+    | Append => Ok (d ++ [opd_A x])
+    | Insert pos => Ok (firstn pos d ++ [opd_A x] ++ skipn pos d)
+    | Extend => Ok d
+    end
+  end.
+(* the code as it is uses the exact-type guard *)
+Definition mutate_impl := mutate exact.
+
+(* constructor given an object *)
+Definition converts (r o : ocls) : bool := match r, o with oTw3, oSE3 | oTw2, oSE2 => true | _, _ => false end.
+Definition ctor_obj (r : ocls) (x : operand) : result (list melt) :=
+  if subclass_of (ocl x) r then Ok (repeat (V (ocl x)) (olen x))                 (* isinstance(arg, self.__class__): copy.copy(arg.data) *)
+  else if converts r (ocl x) then Ok [if olen x =? 1 then V r else Junk]          (* [converter(arg).A] *)
+  else match r with
+  | oUQ => match ocl x with
+           | oSO3 | oSE3 => Ok (repeat (V oUQ) (olen x))                          (* [r2q(x.R) for x in s] *)
+           | _ => if olen x =? 0 then Err IndexError else Err ValueError end      (* s[0] on an empty object *)
+  | _ => Err ValueError end.
+
+Definition all_member (r : ocls) (d : list melt) : Prop := Forall (fun e => member r e = true) d.
+Definition mut_summary (r : ocls) (n : nat) (m : mutator) (x : operand) : nat * list bool :=
+  match mutate_impl r (repeat (V r) n) m x with Err e => (exc_code e, []) | Ok d => (0, map (member r) d) end.
+Definition obj_summary (r : ocls) (x : operand) : nat * list bool :=
+  match ctor_obj r x with Err e => (exc_code e, []) | Ok d => (0, map (member r) d) end.
